@@ -64,7 +64,7 @@ int main(int argc, char** argv)
     int threads = 16;
     double deadline_s = 0;
     long replay_param = 0;
-    bool replay = false, placement = false;
+    bool replay = false, placement = false, timing = false;
     std::vector<std::string> props;
     for (int i = 1; i < argc; ++i)
     {
@@ -100,6 +100,8 @@ int main(int argc, char** argv)
             replay = true;
         else if (a == "--placement")
             placement = true;
+        else if (a == "--timing")
+            timing = true;
         else if (a == "--props")
             props = split(next(), ',');
         else if (a == "--perm-tables")
@@ -136,6 +138,7 @@ int main(int argc, char** argv)
     if (!known.empty())
         for (auto& k : split(known, ','))
             E.log.known_open.insert(k);
+    E.timing_only = timing;
     Tier T;
     T.thorough = tier == "thorough";
     T.seed = seed;
@@ -273,6 +276,13 @@ int main(int argc, char** argv)
         archs.push_back(m.arch);
     for (auto& g : E.groups)
         notes.push_back(std::string(xv_type_name[g->sig.elem]) + " " + g->sp.label + ": tuples=" + std::to_string(g->sp.ntuples) + " lane_shifts=" + std::to_string(g->sp.shifts) + " ops=" + std::to_string(g->ops.size()));
+    {
+        char b[160];
+        snprintf(b, sizeof b, "largest CPU time of one block of kernel calls: %.3f ms (limit %.0f ms)", (double)max_call_cpu_us().load() / 1000.0, CALL_CPU_LIMIT_S * 1000.0);
+        notes.push_back(b);
+        if (timing)
+            notes.push_back("timing mode (C14): every call of the placement spaces is executed and its CPU time judged; results are not compared");
+    }
     Report rep;
     rep.prop = prop;
     rep.tier = tier;
